@@ -76,21 +76,27 @@ theorem cBuild_wf (k : BuildKey) (hk : k.exp = cExp) : ConWf (cBuild k) := by
   have h0 : a 0 = a' 0 := h 0 (by simp [cBuild])
   cases k <;> simp only [BuildKey.exp] at hk <;> subst hk <;> simp [cBuild, BuildKey.sem, cExp, h0]
 
+theorem cFaithful : ∀ c c', cR c → cR c' → c.id = c'.id → ∀ a, c.sem a = c'.sem a := by
+  rintro c c' (rfl | rfl | rfl | ⟨k, hk, rfl⟩) (rfl | rfl | rfl | ⟨k', hk', rfl⟩) hid a <;>
+    first | rfl | (simp [cFalse, cCon, cEq, cBuild] at hid; done) | skip
+  all_goals first
+    | (simp only [cFalse, cCon, cEq, cBuild] at hid; omega)
+    | skip
+  have hcode : keyCode k = keyCode k' := by
+    have : Encodable.encode (keyCode k) = Encodable.encode (keyCode k') := by
+      simp only [cBuild] at hid; omega
+    exact Encodable.encode_injective this
+  exact keyCode_sem hcode (hk.trans hk'.symm) a
+
+theorem cZid : ZidFaithful cR := by
+  intro c c' hc hc' hz
+  refine cFaithful c c' hc hc' ?_
+  rcases hc with rfl | rfl | rfl | ⟨k, _, rfl⟩ <;> rcases hc' with rfl | rfl | rfl | ⟨k', _, rfl⟩ <;> exact hz
+
 theorem cHyps : SolverHyps cR cRE cEnv := by
-  refine ⟨⟨?_, ?_, ?_, Or.inl rfl, fun _ => rfl⟩, ?_, fun _ _ _ _ => rfl, fun _ _ _ c hc v hv => ⟨c, hc, hv⟩,
+  refine ⟨⟨cFaithful, ?_, ?_, Or.inl rfl, fun _ => rfl⟩, cZid, ?_, fun _ _ _ _ => rfl, fun _ _ _ c hc v hv => ⟨c, hc, hv⟩,
     ⟨fun _ _ _ h => by simp [cEnv] at h, fun _ _ h => by simp [cEnv] at h, fun _ _ h => by simp [cEnv] at h⟩, ?_,
     ⟨?_, ?_, ?_⟩, ⟨?_, ?_⟩, ?_, ?_⟩
-  · -- equal ids, equal meaning
-    rintro c c' (rfl | rfl | rfl | ⟨k, hk, rfl⟩) (rfl | rfl | rfl | ⟨k', hk', rfl⟩) hid a <;>
-      first | rfl | (simp [cFalse, cCon, cEq, cBuild] at hid; done) | skip
-    all_goals first
-      | (simp only [cFalse, cCon, cEq, cBuild] at hid; omega)
-      | skip
-    have hcode : keyCode k = keyCode k' := by
-      have : Encodable.encode (keyCode k) = Encodable.encode (keyCode k') := by
-        simp only [cBuild] at hid; omega
-      exact Encodable.encode_injective this
-    exact keyCode_sem hcode (hk.trans hk'.symm) a
   · rintro c (rfl | rfl | rfl | ⟨k, hk, rfl⟩)
     · exact ⟨fun _ _ _ => rfl, fun _ _ => rfl, fun b hb a => by simp [cFalse] at hb ⊢; exact hb,
         fun _ _ _ h => by simp [cFalse] at h⟩
